@@ -1,6 +1,6 @@
 (* C07: errors only grow along a run; a loud fault on a requested fetch leaves an error. *)
 From Gv Require Import lib.Bytes lib.Json C02.Model C07.Model C07.Spec C07.ProofsBase.
-From Coq Require Import Lia.
+From Coq Require Import Lia PeanoNat.
 Open Scope N_scope.
 
 Definition ext_errors (s s' : lstate) : Prop := exists es, ls_errors s' = ls_errors s ++ es.
@@ -40,9 +40,7 @@ Proof. intros s s' H. exists []. rewrite app_nil_r. exact H. Qed.
 Ltac ext_solve :=
   first [ apply ext_refl
         | apply ext_add_error
-        | apply ext_of_eq; first [apply merge_target_errors | apply merge_pairwise_errors | apply merge_buckets_errors | reflexivity]
-        | eapply ext_trans; [apply ext_add_error|]; ext_solve
-        | eapply ext_trans; [|apply ext_add_error]; ext_solve ].
+        | apply ext_of_eq; first [apply merge_target_errors | apply merge_pairwise_errors | apply merge_buckets_errors | reflexivity] ].
 
 Lemma merge_result_ext : forall f res items batch s, ext_errors s (merge_result f res items batch s).
 Proof.
@@ -92,3 +90,228 @@ Section Mono.
       eapply ext_trans; [exact IH|apply IHl].
   Qed.
 End Mono.
+
+(* ---- loud faults ---- *)
+Lemma app_one_nonempty : forall {A} (l : list A) x, l ++ [x] <> [].
+Proof. intros A l x H. apply app_eq_nil in H as [_ H]. discriminate. Qed.
+
+Lemma fetch_wf_inv : forall kind_of f, fetch_wf kind_of f = true ->
+  kind_of (f_id f) = f_kind f /\ f_datapath f = datapath_of (f_kind f).
+Proof.
+  intros kind_of f H. unfold fetch_wf in H. apply andb_prop in H as [H1 H2]. split.
+  - destruct (kind_of (f_id f)), (f_kind f); try discriminate; reflexivity.
+  - revert H2. generalize (datapath_of (f_kind f)). generalize (f_datapath f).
+    induction r as [|[x|x] a IH]; intros [|[y|y] b] H; try discriminate; try reflexivity.
+    + apply andb_prop in H as [H1' H2']. apply bytes_eqb_true in H1'. subst. f_equal. apply IH. exact H2'.
+    + apply andb_prop in H as [H1' H2']. apply N.eqb_eq in H1'. subst. f_equal. apply IH. exact H2'.
+Qed.
+
+Definition loud_body (k : fault) : bool :=
+  match k with
+  | FtTransport | FtStatusEmpty | FtStatusText | FtStatusErrors | FtEmpty | FtNonJSON | FtTruncated | FtNaNBody
+  | FtErrorsNoData | FtErrorsNullData | FtNullData => true
+  | _ => false
+  end.
+
+Lemma loud_body_error : forall f k r items batch s,
+  f_datapath f = datapath_of (f_kind f) -> loud_body k = true ->
+  ls_errors (merge_result f (apply_fault k r) items batch s) <> [].
+Proof.
+  intros f k r items batch s Hd Hk.
+  destruct k; try discriminate; unfold merge_result, apply_fault, mk_response; cbn [rs_err rs_body rs_status];
+    try (apply app_one_nonempty);
+    rewrite Hd; destruct (f_kind f); cbn; try (apply app_one_nonempty).
+Qed.
+
+Lemma count_body : forall answer root_answer rq g,
+  rs_body (on_body (map_entities g) (clean_response answer root_answer rq false)) =
+  BJson (JObj ((k_data, JObj [(k_entities, JArr (g (map fst (map (answer (rq_fetch rq)) (rq_reps rq)))))])
+               :: errors_member (flat_map snd (map (answer (rq_fetch rq)) (rq_reps rq))))).
+Proof.
+  intros. unfold on_body, clean_response. cbn [rs_body]. unfold map_entities. cbn [map fst snd].
+  change (bytes_eqb k_data k_data) with true. cbv iota. cbn [map fst snd].
+  change (bytes_eqb k_entities k_entities) with true. cbv iota. f_equal. f_equal. f_equal.
+  unfold errors_member. destruct (flat_map snd (map (answer (rq_fetch rq)) (rq_reps rq))); reflexivity.
+Qed.
+
+Lemma count_error : forall answer root_answer f k rq (bs : list (bytes * list rpath)) items s,
+  f_datapath f = datapath_of FBatch -> (k = FtCountLess \/ k = FtCountMore) ->
+  rq_reps rq = map fst bs -> bs <> [] ->
+  ls_errors (merge_result f (apply_fault k (clean_response answer root_answer rq false)) items (Some (map snd bs)) s) <> [].
+Proof.
+  intros answer root_answer f k rq bs items s Hd Hk Hr Hne.
+  remember (map fst (map (answer (rq_fetch rq)) (rq_reps rq))) as ents eqn:Hents.
+  assert (Hlen : length ents = length bs) by (subst ents; rewrite !map_length, Hr, map_length; reflexivity).
+  assert (Hpos : (0 < length bs)%nat) by (destruct bs; [congruence|simpl; lia]).
+  assert (Hne' : ents <> []) by (intro E; rewrite E in Hlen; simpl in Hlen; lia).
+  assert (exists g, apply_fault k (clean_response answer root_answer rq false) = on_body (map_entities g) (clean_response answer root_answer rq false)
+                    /\ length (g ents) <> length bs) as (g & Hg & Hgl).
+  { destruct Hk; subst k.
+    - eexists; split; [reflexivity|]. cbv beta.
+      pose proof (app_removelast_last JNull Hne') as H.
+      apply (f_equal (@length json)) in H. rewrite app_length in H. simpl in H. lia.
+    - eexists; split; [reflexivity|]. cbv beta. destruct (rev ents) as [|x r] eqn:E.
+      + apply (f_equal (@length json)) in E. rewrite rev_length in E. simpl in E. lia.
+      + rewrite app_length. simpl. lia. }
+  rewrite Hg. unfold merge_result.
+  assert (He : rs_err (on_body (map_entities g) (clean_response answer root_answer rq false)) = false) by reflexivity.
+  rewrite He, count_body. rewrite <- Hents. rewrite Hd.
+  set (errs := errors_member (flat_map snd (map (answer (rq_fetch rq)) (rq_reps rq)))).
+  assert (Hrd : get_loc (datapath_of FBatch) (JObj ((k_data, JObj [(k_entities, JArr (g ents))]) :: errs)) = Some (JArr (g ents))).
+  { unfold datapath_of. cbn [get_loc obj_get]. change (bytes_eqb k_data k_data) with true. cbv iota.
+    cbn [get_loc obj_get]. change (bytes_eqb k_entities k_entities) with true. reflexivity. }
+  rewrite Hrd. cbn [is_nullish].
+  match goal with |- ls_errors (match items with [] => ?A | _ => _ end) <> [] => idtac end.
+  set (s1 := if match get_loc [PName k_errors] (JObj ((k_data, JObj [(k_entities, JArr (g ents))]) :: errs)) with
+                | Some (JArr (_ :: _)) => true | _ => false end then add_error s LE_FETCH f else s).
+  destruct items as [|l [|l2 r]].
+  - apply app_one_nonempty.
+  - destruct (g ents) as [|b0 b] eqn:G; [apply app_one_nonempty|].
+    rewrite map_length. destruct (Nat.eqb (length bs) (length (b0 :: b))) eqn:E; [|apply app_one_nonempty].
+    apply Nat.eqb_eq in E. congruence.
+  - destruct (g ents) as [|b0 b] eqn:G; [apply app_one_nonempty|].
+    rewrite map_length. destruct (Nat.eqb (length bs) (length (b0 :: b))) eqn:E; [|apply app_one_nonempty].
+    apply Nat.eqb_eq in E. congruence.
+Qed.
+
+(* ---- requests are only appended ---- *)
+Lemma merge_target_reqs : forall f s l src, ls_reqs (merge_target f s l src) = ls_reqs s.
+Proof.
+  intros. unfold merge_target. destruct (ls_hard s); [reflexivity|].
+  destruct (get_loc l (ls_data s)); [|reflexivity].
+  destruct (merge_with_path j src (f_mergepath f)) as [[a' ch]|]; [destruct ch|]; reflexivity.
+Qed.
+Lemma fold_merge_target_reqs : forall f src targets s,
+  ls_reqs (fold_left (fun s l => merge_target f s l src) targets s) = ls_reqs s.
+Proof. induction targets as [|l r IH]; intros s; simpl; [reflexivity|]. rewrite IH. apply merge_target_reqs. Qed.
+Lemma merge_pairwise_reqs : forall f ls batch s, ls_reqs (merge_pairwise f s ls batch) = ls_reqs s.
+Proof.
+  induction ls as [|l ls IH]; intros batch s; simpl; [reflexivity|].
+  destruct batch; [reflexivity|]. rewrite IH. apply merge_target_reqs.
+Qed.
+Lemma merge_buckets_reqs : forall f bs batch s, ls_reqs (merge_buckets f s bs batch) = ls_reqs s.
+Proof.
+  induction bs as [|b bs IH]; intros batch s; simpl; [reflexivity|].
+  destruct batch; [reflexivity|]. rewrite IH. apply fold_merge_target_reqs.
+Qed.
+
+Ltac reqs_solve := first [ reflexivity | apply merge_target_reqs | apply merge_pairwise_reqs | apply merge_buckets_reqs ].
+
+Lemma merge_result_reqs : forall f res items batch s, ls_reqs (merge_result f res items batch s) = ls_reqs s.
+Proof.
+  intros f res items batch s. unfold merge_result.
+  destruct (rs_err res); [reqs_solve|].
+  destruct (rs_body res) as [| |resp]; [reqs_solve|destruct (non2xx (rs_status res)); reqs_solve|].
+  set (he := match get_loc [PName k_errors] resp with Some (JArr (_ :: _)) => true | _ => false end).
+  set (s1 := if he then add_error s LE_FETCH f else s).
+  assert (H1 : ls_reqs s1 = ls_reqs s) by (subst s1; destruct he; reflexivity).
+  rewrite <- H1. clearbody s1. clear H1.
+  destruct (is_nullish (get_loc (f_datapath f) resp)).
+  - destruct (is_entity_kind (f_kind f) && _); [reqs_solve|].
+    destruct (negb he && non2xx (rs_status res)); [reqs_solve|]. destruct (negb he); reqs_solve.
+  - destruct (get_loc (f_datapath f) resp) as [rd|]; [|reqs_solve].
+    destruct items as [|l [|l2 r]].
+    + destruct rd; reqs_solve.
+    + destruct batch as [bs|].
+      * destruct rd as [| | | |[|b0 b]|]; try reqs_solve. destruct (Nat.eqb _ _); reqs_solve.
+      * reqs_solve.
+    + destruct rd as [| | | |[|b0 b]|]; try reqs_solve.
+      destruct batch as [bs|]; destruct (Nat.eqb _ _); reqs_solve.
+Qed.
+
+Lemma prepare_request : forall f d items d' rq b, prepare f d items = PLoad d' rq b ->
+  rq_fetch rq = f_id f /\
+  (f_kind f = FBatch -> exists bs : list (bytes * list rpath), bs <> [] /\ rq_reps rq = map fst bs /\ b = Some (map snd bs)).
+Proof.
+  intros f d items d' rq b H. unfold prepare in H. destruct (f_kind f) eqn:K.
+  - assert (rq = mk_request f []).
+    { destruct items as [|l [|l2 r]]; try (inversion H; reflexivity).
+      destruct (get_loc l d) as [[| | | | |]|]; inversion H; reflexivity. }
+    subst rq. split; [reflexivity|discriminate].
+  - destruct (render_rep (f_rep f) (items_data d items)) as [v' [bts|]]; [|discriminate].
+    destruct (bytes_eqb bts b_null || bytes_eqb bts b_empty_obj); [discriminate|]. inversion H; subst. split; [reflexivity|discriminate].
+  - destruct (batch_prepare (f_rep f) items d []) as [d2 bs] eqn:B. destruct bs as [|b0 bs']; [discriminate|].
+    inversion H; subst. split; [reflexivity|]. intros _. exists (b0 :: bs'). split; [discriminate|split; reflexivity].
+Qed.
+
+Section Dichotomy.
+  Variable answer : N -> bytes -> json * list json.
+  Variable root_answer : N -> json * list json.
+  Variable kind_of : N -> fkind.
+  Variable F : N -> option fault.
+  Hypothesis Hloud : forall id k, F id = Some k -> loud (kind_of id) k = true.
+
+  Let e0 := faulty_exchange answer root_answer kind_of no_faults.
+  Let eF := faulty_exchange answer root_answer kind_of F.
+
+  Definition unfaulted_new (s s' : lstate) : Prop :=
+    forall rq, In rq (ls_reqs s') -> In rq (ls_reqs s) \/ F (rq_fetch rq) = None.
+
+  Lemma unfaulted_refl : forall s, unfaulted_new s s.
+  Proof. intros s rq H. left. exact H. Qed.
+  Lemma unfaulted_trans : forall a b c, unfaulted_new a b -> unfaulted_new b c -> unfaulted_new a c.
+  Proof. intros a b c H1 H2 rq H. destruct (H2 rq H) as [H3|H3]; [apply H1; exact H3|right; exact H3]. Qed.
+
+  Lemma fetch_dich : forall f s, fetch_wf kind_of f = true ->
+    (fst (run_fetch unit eF f (s, tt)) = fst (run_fetch unit e0 f (s, tt)) /\ unfaulted_new s (fst (run_fetch unit e0 f (s, tt))))
+    \/ ls_errors (fst (run_fetch unit eF f (s, tt))) <> [].
+  Proof.
+    intros f s Hwf. destruct (fetch_wf_inv _ _ Hwf) as [Hk Hd]. unfold run_fetch.
+    destruct (should_skip f s); [left; split; [reflexivity|intros rq' H'; left; exact H']|].
+    destruct (prepare f (ls_data s) (select_items (ls_data s) (f_path f))) as [d|d rq batch] eqn:P;
+      [left; split; [reflexivity|intros rq' H'; left; exact H']|].
+    destruct (prepare_request _ _ _ _ _ _ P) as [Hrq Hb].
+    unfold eF, e0, faulty_exchange, no_faults. rewrite Hrq, Hk.
+    destruct (F (f_id f)) as [k|] eqn:EF.
+    - right. cbn [fst]. specialize (Hloud _ _ EF). rewrite Hk in Hloud.
+      match goal with |- ls_errors (merge_result f ?r _ _ ?st) <> [] => set (s' := st) end.
+      destruct (loud_body k) eqn:LB.
+      + apply loud_body_error; assumption.
+      + assert (Hc : (k = FtCountLess \/ k = FtCountMore) /\ f_kind f = FBatch).
+        { destruct k; try discriminate; simpl in Hloud; destruct (f_kind f); try discriminate; auto. }
+        destruct Hc as [Hc Hfk]. destruct (Hb Hfk) as (bs & Hne & Hreps & Hbatch). subst batch.
+        rewrite Hfk. apply count_error; try assumption. rewrite Hd, Hfk. reflexivity.
+    - left. cbn [fst]. split; [reflexivity|].
+      intros rq' Hin. rewrite merge_result_reqs in Hin.
+      assert (Hin' : In rq' (ls_reqs s ++ [rq])).
+      { destruct (rs_err (clean_response answer root_answer rq match f_kind f with FSingle => true | _ => false end)); exact Hin. }
+      apply in_app_or in Hin' as [H|[H|[]]]; [left; exact H|right]. subst rq'. rewrite Hrq. exact EF.
+  Qed.
+
+  Lemma tree_dich : forall t s, forallb (fetch_wf kind_of) (fetches_of t) = true ->
+    (fst (run_tree unit eF t (s, tt)) = fst (run_tree unit e0 t (s, tt)) /\ unfaulted_new s (fst (run_tree unit e0 t (s, tt))))
+    \/ ls_errors (fst (run_tree unit eF t (s, tt))) <> [].
+  Proof.
+    fix IH 1. intros t; destruct t as [f|l|l]; intros s Hwf.
+    - simpl in Hwf. rewrite andb_true_r in Hwf. apply fetch_dich; exact Hwf.
+    - simpl. simpl in Hwf. revert s Hwf. induction l as [|t r IHl]; intros s Hwf; [left; split; [reflexivity|apply unfaulted_refl]|].
+      rewrite forallb_app in Hwf. apply andb_prop in Hwf as [Hw1 Hw2].
+      destruct (IH t s Hw1) as [[He Hu]|Hn].
+      + destruct (run_tree unit eF t (s, tt)) as [sF []] eqn:RF. destruct (run_tree unit e0 t (s, tt)) as [s0 []] eqn:R0.
+        cbn [fst] in *. subst sF. destruct (ls_hard s0); [left; split; [reflexivity|exact Hu]|].
+        destruct (IHl s0 Hw2) as [[He2 Hu2]|Hn2]; [left; split; [exact He2|eapply unfaulted_trans; eassumption]|right; exact Hn2].
+      + right. destruct (run_tree unit eF t (s, tt)) as [sF []] eqn:RF. cbn [fst] in *.
+        destruct (ls_hard sF); [exact Hn|].
+        eapply ext_nonempty; [|exact Hn].
+        change (ext_errors sF (fst (run_tree unit eF (FTSeq r) (sF, tt)))). apply run_tree_ext.
+    - simpl. simpl in Hwf. revert s Hwf. induction l as [|t r IHl]; intros s Hwf; [left; split; [reflexivity|apply unfaulted_refl]|].
+      rewrite forallb_app in Hwf. apply andb_prop in Hwf as [Hw1 Hw2].
+      destruct (IH t s Hw1) as [[He Hu]|Hn].
+      + destruct (run_tree unit eF t (s, tt)) as [sF []] eqn:RF. destruct (run_tree unit e0 t (s, tt)) as [s0 []] eqn:R0.
+        cbn [fst] in *. subst sF.
+        destruct (IHl s0 Hw2) as [[He2 Hu2]|Hn2]; [left; split; [exact He2|eapply unfaulted_trans; eassumption]|right; exact Hn2].
+      + right. destruct (run_tree unit eF t (s, tt)) as [sF []] eqn:RF. cbn [fst] in *.
+        eapply ext_nonempty; [|exact Hn].
+        change (ext_errors sF (fst (run_tree unit eF (FTPar r) (sF, tt)))). apply run_tree_ext.
+  Qed.
+
+  Theorem errors_nonempty_partial_proof : forall t,
+    forallb (fetch_wf kind_of) (fetches_of t) = true ->
+    (exists rq, In rq (ls_reqs (run answer root_answer kind_of no_faults t)) /\ F (rq_fetch rq) <> None) ->
+    ls_errors (run answer root_answer kind_of F t) <> [].
+  Proof.
+    intros t Hwf (rq & Hin & Hf). unfold run, load in *.
+    destruct (tree_dich t init_state Hwf) as [[He Hu]|Hn]; [|exact Hn].
+    destruct (Hu rq Hin) as [[]|H]. congruence.
+  Qed.
+End Dichotomy.
